@@ -1,7 +1,10 @@
 #!/bin/bash
-# tools/seed_eval.sh <patch file> <check ids...> : apply a seeded change to /repo, run checks (evidence redirected), undo.
+# tools/seed_eval.sh <patch file> <check ids...> : apply a seeded change to a tree, run checks (evidence redirected), undo.
+# The tree is /repo unless SEED_TREE names a scratch worktree (then /repo stays untouched and several evaluations can run side by side).
 p=$1; shift
-cd /repo && git diff --quiet || { echo "repo dirty"; exit 3; }
-git apply "$p" || { echo "PATCH DOES NOT APPLY to /repo"; exit 3; }
-for k in "$@"; do (cd /verif && VERIF_EVIDENCE_DIR=/tmp/verif_mutant_evidence timeout 1500 ./check $k 2>&1 | grep -E "VIOLATION|^\[|HARNESS|key=" | cut -c1-260 | head -8); done
-git -C /repo checkout -- .
+tree=${SEED_TREE:-/repo}
+cd $tree && git diff --quiet || { echo "tree dirty: $tree"; exit 3; }
+git apply "$p" || { echo "PATCH DOES NOT APPLY to $tree"; exit 3; }
+for k in "$@"; do (cd /verif && VERIF_REPO=$tree VERIF_EVIDENCE_DIR=/tmp/verif_mutant_evidence_$$ timeout 1500 ./check $k 2>&1 | grep -E "VIOLATION|^\[|HARNESS|key=" | cut -c1-260 | head -8); done
+git -C $tree checkout -- .
+rm -rf /tmp/verif_mutant_evidence_$$
